@@ -8,8 +8,10 @@
 //! Oracle: inverse. `s = e.to_quil()` must be Ok, `Expression::from_str(s)` must be Ok(e2), and
 //! at three assignments `e.evaluate == e2.evaluate` (library evaluator on both sides; relative
 //! 1e-12; both non-finite counts as equal). Points where the reference evaluator sees a sqrt /
-//! non-integer power argument on the negative real axis are skipped: there only the sign of a
-//! zero decides the value, and "-0" vs "0" is not a difference in mathematical value.
+//! non-integer power argument on the negative real axis are compared too; a mismatch there gets
+//! its own signature (`c03:branch-cut-sign`, see KNOWN_FINDINGS.txt) because its root cause — a
+//! negative literal re-parses as the negation of a positive one and thereby acquires a negative
+//! zero imaginary part — is distinct from printing/grouping defects.
 
 use crate::engine::{lib, Check, Ctx, Outcome, Property, Src, Tier};
 use crate::gen::expr::{self as gx, ExprCfg, Literals};
@@ -53,9 +55,9 @@ pub fn oracle(e: &Expression, vars: &[String], regions: &[(String, u64)], out: &
         let mut diag = eval::Diag::default();
         let reference = eval::eval(e, &env, &mut None, &mut diag);
         ensure!(reference.is_some(), "harness:c03-incomplete", "assignment incomplete");
-        if diag.branch_cut || diag.zero_base || diag.negative_base_integer_power || diag.unstable {
+        let on_cut = diag.branch_cut || diag.zero_base || diag.unstable;
+        if on_cut {
             out.class("point-on-branch-cut");
-            continue;
         }
         let lv: HashMap<&str, Complex64> = env.vars.iter().map(|(k, v)| (k.as_str(), *v)).collect();
         let lm: HashMap<&str, Vec<f64>> = env.mem.iter().map(|(k, v)| (k.as_str(), v.clone())).collect();
@@ -64,7 +66,19 @@ pub fn oracle(e: &Expression, vars: &[String], regions: &[(String, u64)], out: &
         match (a, b) {
             (Ok(a), Ok(b)) => {
                 let same = if !eval::finite(a) || !eval::finite(b) { !eval::finite(a) && !eval::finite(b) } else { eval::close(a, b, 1e-12) };
-                if !same {
+                // an integer power of a negative real base is continuous; only the polar formula's
+                // rounding noise depends on the sign of the zero imaginary part
+                let noise_only = diag.negative_base_integer_power && eval::finite(a) && eval::finite(b) && eval::close(a, b, 1e-9);
+                if !same && !noise_only {
+                    if on_cut || diag.negative_base_integer_power {
+                        // the two sides sit on opposite sides of a branch cut: a negative literal is
+                        // written as `-x`, which re-parses as the negation of +x and so carries a
+                        // negative-zero imaginary part
+                        fail!(
+                            "c03:branch-cut-sign",
+                            "{e:?} prints as {text:?} which parses to {parsed:?}; at assignment #{k} the values lie on opposite sides of a branch cut: {a} vs {b}"
+                        );
+                    }
                     fail!(
                         format!("c03:value-changed:{}", shape(e)),
                         "{e:?} prints as {text:?} which parses to {parsed:?}; at assignment #{k}: {a} vs {b}"
